@@ -79,7 +79,13 @@ type Layout struct {
 	Names   string `json:"names"`   // RD | bar   (RD/ND/NP or -| |- |)
 	LongNum bool   `json:"longnum"` // numbers in the five-byte form
 	Enc     string `json:"enc"`     // std | custom | customseac | none
+	Lead    int    `json:"lead"`    // binary container: which legal first cipher byte to use (see leadBytes)
 }
+
+// leadBytes are legal first bytes of a binary eexec section: the Type 1 book only
+// forbids blank, tab, carriage return and line feed there (and asks for one
+// non-hexadecimal byte among the first four).
+var leadBytes = []byte{0, 0x01, '%', 0x0c, 0x00, 0x1f, 0x80, 'X', '(', '<', '/'}
 
 // FontSpec is what the independent writer serialises.
 type FontSpec struct {
@@ -190,6 +196,9 @@ func WriteFont(f *FontSpec, lay Layout) ([]byte, error) {
 		// four random-looking plaintext lead bytes whose cipher text starts with a
 		// non-blank byte and is not all hexadecimal
 		lead := []byte{0x7c, 0x11, 0x93, 0x2e}
+		if k := lay.Lead % len(leadBytes); lay.Cont == "bin" && k > 0 {
+			lead[0] = leadBytes[k] ^ byte(R0Eexec>>8) // the first cipher byte becomes leadBytes[k]
+		}
 		cipher := Encrypt(R0Eexec, append(lead, priv.Bytes()...))
 		switch lay.Cont {
 		case "pfa":
